@@ -4,7 +4,7 @@
 const char* PROPERTY = "C14";
 const int LMAX = 64;
 const char* RULE =
-    "enum: all 20 ordered pairs d1!=d2 in {2..6} x 27 binary entry points (+ and - in every value-category overload, scalar product, SUTrace, "
+    "enum: all 20 ordered pairs d1!=d2 in {2..6} x 29 binary entry points (+ and - in every value-category overload, scalar product, SUTrace with and without guarantee flags that do not include EqualSizes, "
     "commutator, anticommutator, the four ElementwiseOperation and four ElementwiseProduct overloads, += -= of a vector and of a proxy, "
     "Evolve(op,t) in both roles, Rotate(matrix)) x 3x3 operand storage kinds (self-owned, aligned factory, external exact-size heap buffer so "
     "ASan sees a one-element over-read); every constructor/factory with the whole unsupported window (dimension 1,7,8; list lengths 1, every "
@@ -17,8 +17,8 @@ void harness_init() { quiet_gsl(); }
 struct EOp { double operator()(double a, double b) const { return a * b + 1.0; } };
 static const char* EP[] = {"a+b", "a+move(b)", "move(a)+b", "move(a)+move(b)", "a-b", "move(a)-b", "a*b", "SUTrace", "iCommutator", "ACommutator",
                            "EwOp(a,b)", "EwOp(move(a),b)", "EwOp(a,move(b))", "EwOp(move(a),move(b))", "EwProd(a,b)", "EwProd(move(a),b)", "EwProd(a,move(b))", "EwProd(move(a),move(b))",
-                           "a+=b", "a-=b", "a+=proxy(b)", "a-=proxy(b)", "a.Evolve(b,t)", "b.Evolve(a,t)", "a.Rotate(matrix_d2)", "a+=b*2 (mult proxy)", "a-=(-b) (neg proxy)"};
-static const int NEP = 27;
+                           "a+=b", "a-=b", "a+=proxy(b)", "a-=proxy(b)", "a.Evolve(b,t)", "b.Evolve(a,t)", "a.Rotate(matrix_d2)", "a+=b*2 (mult proxy)", "a-=(-b) (neg proxy)", "SUTrace<NoAlias>", "SUTrace<AlignedStorage>"};
+static const int NEP = 29;
 
 struct Operand {
   double* ext; SU_vector v; std::vector<double> c; const double* addr; int d; int kind;
@@ -69,7 +69,9 @@ static bool call_binary(int ep, SU_vector& a, SU_vector& b, int d2) {
       case 23: { SU_vector r(b.Evolve(a, 0.75)); break; }
       case 24: { GslMat g(Mat::identity(d2)); SU_vector r = a.Rotate(g.m); break; }
       case 25: a += b * 2.0; break;
-      default: a -= (-b); break;
+      case 26: a -= (-b); break;
+      case 27: { volatile double r = squids::SUTrace<squids::detail::NoAlias>(a, b); (void)r; break; }
+      default: { volatile double r = squids::SUTrace<squids::detail::AlignedStorage>(a, b); (void)r; break; }
     }
   } catch (const std::exception&) { return true; }
   return false;
@@ -82,6 +84,7 @@ void run_case(ByteSource& s, CaseInfo& ci) {
     int ep = (int)s.choose(NEP);
     int d1 = gen_dim(s), d2 = 2 + (d1 - 2 + 1 + (int)s.choose(4)) % 5;
     int ka = (int)s.choose(3), kb = (int)s.choose(3);
+    if (ep == 28) ka = kb = 1;  // the alignment guarantee must be true: both operands come from the aligned factory
     ci.sample = fmt("%s d1=%d d2=%d storage=(%d,%d)", EP[ep], d1, d2, ka, kb);
     ci.label(std::string("ep-") + EP[ep]);
     ci.set_digest(fnv1a(ci.sample.data(), ci.sample.size()));
